@@ -301,6 +301,63 @@ pub fn read_slice(data: &[u8], bits: u8) -> Vec<Rec> {
     out
 }
 
+
+/// Like `read_slice`, but after `k` calls the reader is cloned; returns the records of the run
+/// that continues on the CLONE and of the run that continues on the original afterwards. A copy
+/// of a reader is a reader in the same state: both must equal the uninterrupted run.
+pub fn read_slice_handover(data: &[u8], bits: u8, k: usize) -> (Vec<Rec>, Vec<Rec>) {
+    fn finish<'a>(r: &mut Reader<&'a [u8]>, out: &mut Vec<Rec>, budget: usize) {
+        let mut extra = 0;
+        // the run may already be past its end
+        if let Some(last) = out.last() {
+            if matches!(last.ev, Ev::Eof) || last.ev.is_fatal() {
+                extra = 1;
+                let mut j = out.len() - 1;
+                while j > 0 && (matches!(out[j - 1].ev, Ev::Eof) || out[j - 1].ev.is_fatal()) {
+                    j -= 1;
+                    extra += 1;
+                }
+                if extra > EXTRA_CALLS {
+                    return;
+                }
+            }
+        }
+        while out.len() < budget {
+            let e = r.read_event();
+            let ev = ev_of(&e);
+            drop(e);
+            let done = matches!(ev, Ev::Eof) || ev.is_fatal();
+            out.push(Rec { ev, pos: r.buffer_position(), err_pos: r.error_position() });
+            if done || extra > 0 {
+                extra += 1;
+                if extra > EXTRA_CALLS {
+                    break;
+                }
+            }
+        }
+    }
+    let budget = call_bound(data.len()) + EXTRA_CALLS;
+    let mut r = Reader::from_reader(data);
+    apply_cfg(r.config_mut(), bits);
+    let mut head = vec![];
+    for _ in 0..k.min(budget) {
+        let e = r.read_event();
+        let ev = ev_of(&e);
+        drop(e);
+        let stop = ev.is_fatal() || matches!(ev, Ev::Eof);
+        head.push(Rec { ev, pos: r.buffer_position(), err_pos: r.error_position() });
+        if stop {
+            break;
+        }
+    }
+    let mut r2 = r.clone();
+    let mut on_clone = head.clone();
+    finish(&mut r2, &mut on_clone, budget);
+    let mut on_original = head;
+    finish(&mut r, &mut on_original, budget);
+    (on_clone, on_original)
+}
+
 /// Read through `read_event_into` over a chunked `BufRead`. `clear` = clear the event buffer
 /// between calls (the usual idiom) or let it grow.
 pub fn read_buffered(data: &[u8], bits: u8, cuts: &[usize], clear: bool) -> Vec<Rec> {
